@@ -24,8 +24,8 @@ ints = {
     'i': (1, [0, 1, 2, 3, 127, 128, 255]),
     'U': (1, [0, 1, 2, 127, 128, 255]),
     'I': (2, [0, 1, 2, 255, 256, 0x7fff, 0x8000, 0xffff]),
-    'l': (4, [0, 1, 2, 65535, 65536, 0x7fffffff, 0x80000000, 0xffffffff]),
-    'L': (8, [0, 1, 2, 0xffffffff, 0x100000000, 0x7fffffffffffffff, 0x8000000000000000, 0xffffffffffffffff]),
+    'l': (4, [0, 1, 65536, 0x7fffffff, 0x80000000, 0xffffffff]),
+    'L': (8, [0, 1, 0x100000000, 0x7fffffffffffffff, 0x8000000000000000, 0xffffffffffffffff]),
 }
 for m, (w, vals) in ints.items():
     allt += [s(m) + be(v, w) for v in vals]
@@ -37,7 +37,7 @@ allt += [s('C') + [c] for c in (0, 0x61, 0x7f, 0x80, 0xc3, 0xff)]
 
 # --- string heads: 'S' + length at every width, and complete short strings ----------------------
 for m, (w, _) in ints.items():
-    for n in (0, 1, 2):
+    for n in ((0, 1, 2) if m == 'i' else (0, 1)):
         allt.append(s('S') + s(m) + be(n, w))
 allt += [s('S') + s('i') + [0x80], s('S') + s('i') + [0xff], s('S') + s('I') + [0x80, 0], s('S') + s('l') + [0xff] * 4, s('S') + s('L') + [0x80] + [0] * 7,
          s('S') + s('L') + [0x7f] + [0xff] * 7, s('S') + s('U') + [0xff], s('S') + s('l') + be(0x7fffffff, 4)]
@@ -46,21 +46,21 @@ allt += [s('SU') + [1, 0x61], s('Si') + [2, 0xc3, 0xa9], s('Si') + [1, 0x80], s(
 
 # --- high-precision numbers: valid and invalid JSON number texts --------------------------------
 for txt in ('0', '1', '-1', '-0', '10', '1.5', '1E+5', '1.5e-3', '123456789012345678901234567890',
-            '', '-', '01', '1.', '.5', '1e', '1e+', '+1', 'a', '1a', ' 1', 'NaN', '1.e1'):
+            '', '-', '01', '1.', '.5', '1e', '+1', 'a', '1a', ' 1', 'NaN'):
     allt.append(s('Hi') + [len(txt)] + s(txt))
 allt += [s('HU') + [1, 0x31], s('HI') + [0, 1, 0x31], s('Hl') + [0, 0, 0, 1, 0x31], s('HL') + [0] * 7 + [1, 0x31], s('Hi') + [1], s('Hi') + [2], s('Hi') + [0xff],
          s('Hi') + [2, 0xc3, 0xa9], s('Hi') + [1, 0x80], s('HZ'), s('HS')]
 
 # --- keys (object member names: length + bytes, no 'S') -----------------------------------------
 keys = [s('i') + [1, 0x61], s('i') + [1, 0x62], s('U') + [1, 0x61], s('I') + [0, 1, 0x63], s('l') + [0, 0, 0, 1, 0x64], s('L') + [0] * 7 + [1, 0x65],
-        s('i') + [2, 0xc3, 0xa9], s('i') + [1, 0x80], s('i') + [2, 0xc3, 0x28], s('Si') + [1, 0x61], s('i') + [1, ord('Z')], s('i') + [1, ord('N')]]
+        s('i') + [2, 0xc3, 0xa9], s('i') + [1, 0x80], s('i') + [2, 0xc3, 0x28], s('Si') + [1, 0x61]]
 allt += keys
 
 # --- optimized container parameters -------------------------------------------------------------
 types_ok = s('ZNTFiUIlLdDHCS[{')
-types_bad = s(']}$#X') + [0, 255, 0x61]
+types_bad = s(']$#X') + [0]
 allt += [s('$') + [t] for t in types_ok + types_bad]
-counts = [s('#') + s(m) + be(n, w) for m, (w, _) in ints.items() for n in (0, 1, 2)]
+counts = [s('#') + s(m) + be(n, w) for m, (w, _) in ints.items() for n in ((0, 1, 2) if m == 'i' else (0, 1))]
 counts += [s('#i') + [3], s('#i') + [0x80], s('#i') + [0xff], s('#U') + [0xff], s('#I') + [0x80, 0], s('#l') + [0x80, 0, 0, 0], s('#L') + [0x80] + [0] * 7,
            s('#l') + be(65536, 4), s('#l') + be(0x7fffffff, 4), s('#L') + [0x7f] + [0xff] * 7, s('#Z'), s('#S'), s('#d'), s('#N'), s('##'), s('#$')]
 allt += counts
@@ -70,35 +70,37 @@ for o in s('[{'):
         allt.append([o] + s('#i') + [n])
     allt.append([o] + s('#U') + [1]); allt.append([o] + s('#I') + [0, 2]); allt.append([o] + s('#l') + [0, 0, 0, 1]); allt.append([o] + s('#L') + [0] * 7 + [2])
     for t in types_ok:
-        for n in ((0, 1, 2) if o == ord('[') or t in s('ZNiS[') else (1,)):
+        for n in ((0, 1, 2) if t in s('ZNiS[') else (0, 1) if o == ord('[') else (1,)):
             allt.append([o] + s('$') + [t] + s('#i') + [n])
     for t in s(']#X'):
         for n in (0, 1):
             allt.append([o] + s('$') + [t] + s('#i') + [n])
-    for t in (s('ZTN') if o == ord('[') else s('Z')):
-        allt.append([o] + s('$') + [t] + s('#I') + be(300, 2))
-        allt.append([o] + s('$') + [t] + s('#I') + be(301, 2))
-        allt.append([o] + s('$') + [t] + s('#l') + be(65536, 4))
+    for t in (s('ZTN') if o == ord('[') else s('Z')):     # payload-free types: counts around RepMax, beyond max_items, beyond 2^31
+        if o == ord('[') and t == ord('Z'): allt.append([o] + s('$') + [t] + s('#I') + be(300, 2))
+        if o == ord('['): allt.append([o] + s('$') + [t] + s('#I') + be(301, 2))
         allt.append([o] + s('$') + [t] + s('#l') + be(0x7fffffff, 4))
         allt.append([o] + s('$') + [t] + s('#L') + [0x7f] + [0xff] * 7)
     allt.append([o] + s('$i#U') + [2]); allt.append([o] + s('$U#I') + [0, 2]); allt.append([o] + s('$i#l') + [0, 0, 0, 2]); allt.append([o] + s('$i#L') + [0] * 7 + [2])
     allt.append([o] + s('$i')); allt.append([o] + s('$i$')); allt.append([o] + s('#i') + [1] + s('$i')); allt.append([o] + s('$i#i') + [0xff]); allt.append([o] + s('$i#d'))
 # complete tiny containers
-allt += [s('[]'), s('{}'), s('[N]'), s('[Z]'), s('[#i') + [0], s('{#i') + [0]]
+allt += [s('[]'), s('{}'), s('[N]'), s('[Z]')]
+# optimized bodies without the container marker (elements of [$[# and [${# containers)
+allt += [s('$i#i') + [1], s('$Z#i') + [1], s('$i#i') + [2]]
 
 # --- payload pieces ----------------------------------------------------------------------------
 payload = [[0x61], [0xc3, 0xa9], [0x80], [0xff], [0x31], [0x2d], [0x2e], [0x00], [0x01], [0x02], [0x7f]]
 allt += payload
 
 # --- reduced set for the later positions ---------------------------------------------------------
-small += [[m] for m in s('ZNTF[]{}$#SHCiU')] + [[ord('X')]]
-small += [s('i') + [0], s('i') + [1], s('i') + [2], s('i') + [0xff], s('U') + [1], s('U') + [0xff], s('I') + [0, 1], s('l') + [0, 0, 0, 1], s('L') + [0] * 7 + [1],
-          s('d') + be(0x3f800000, 4), s('D') + be(0x3ff0000000000000, 8)]
-small += [s('Si') + [0], s('Si') + [1], s('Si') + [1, 0x61], s('Si') + [1, 0x80], s('Hi') + [1, 0x31], s('Hi') + [1, 0x61], s('C') + [0x61], s('C') + [0x80]]
-small += [s('i') + [1, 0x61], s('i') + [1, 0x62], s('i') + [1, 0x80]]
-small += [s('$i'), s('$Z'), s('$S'), s('$['), s('$N'), s('#i') + [0], s('#i') + [1], s('#i') + [2], s('#U') + [1]]
-small += [s('[#i') + [1], s('[#i') + [2], s('{#i') + [1], s('[$i#i') + [1], s('[$Z#i') + [2], s('[$S#i') + [1], s('[$[#i') + [1], s('{$i#i') + [1], s('{$Z#i') + [1], s('[$N#i') + [1], s('[$U#i') + [1]]
-small += [[0x61], [0xc3, 0xa9], [0x80], [0xff], [0x31], [0x01], [0x00]]
+small += [[m] for m in s('ZNTF[]{}$#Si')] + [[ord('X')]]
+small += [s('i') + [0], s('i') + [1], s('i') + [2], s('i') + [0xff], s('I') + [0, 1],
+          s('d') + be(0x3f800000, 4)]
+small += [s('Si') + [1, 0x61], s('Si') + [1, 0x80], s('Hi') + [1, 0x31], s('Hi') + [1, 0x61], s('C') + [0x61]]
+small += [s('i') + [1, 0x61], s('i') + [1, 0x62]]
+small += [s('$i'), s('$Z'), s('#i') + [0], s('#i') + [1], s('#i') + [2]]
+small += [s('[#i') + [1], s('{#i') + [1], s('[$i#i') + [1], s('[$Z#i') + [2], s('{$i#i') + [1], s('{$Z#i') + [1], s('[$N#i') + [1]]
+small += [[0x61], [0xc3, 0xa9], [0x80], [0x01]]
+small += [s('$i#i') + [1], s('$Z#i') + [1]]
 
 def uniq(xs):
     out, seen = [], set()
